@@ -128,6 +128,15 @@ func genC15(r *core.Rand, run int) *MuxScenario {
 			sc.Local = []string{"larking.testpb.ChatRoom"}
 			sp.Backend = "b1"
 		}
+		if mi.ClientS && (sp.Backend != "" && len(sp.Msgs) >= 1 || sp.Backend == "" && len(h.Steps) == 1) && r.Chance(1, 3) {
+			// (not with a local handler that sits in Recv: a read of the
+			// request body is not something a deadline can interrupt, and the
+			// property promises release on cancellation and disconnect only; the
+			// stream forwarder sits in Recv until the first message has come)
+			// the client keeps its request stream open until it has been told
+			// how the call ended: the deadline has to end the call by itself
+			sp.LateClose = true
+		}
 		sc.Reqs = []ReqSpec{sp}
 		sc.Note = "deadline"
 		const farAway = 100 * 365 * 24 * time.Hour // beyond this the fake clock itself cannot be pushed
